@@ -91,6 +91,12 @@ const MULTI: &[&str] = &["é", "→", "😀", "ü", "中"];
 /// per-character attribution tables (C01, C07, C17, C19 switch this on).
 pub static HUGE_TEXTS: std::sync::atomic::AtomicBool = std::sync::atomic::AtomicBool::new(false);
 
+/// Set once a generator with `reversed_ops` has run in this process: the
+/// domain filter of edits / shrinking then lets replacement ranges with
+/// end < start through (the monitors that switch it on make no use of the
+/// splice model for such trees).
+pub static ALLOW_REVERSED: std::sync::atomic::AtomicBool = std::sync::atomic::AtomicBool::new(false);
+
 pub fn gen_text(rng: &mut Rng, max_len: usize, ascii: bool) -> String {
   // rare size / alignment classes that small random texts never reach
   if max_len >= 12 {
@@ -592,8 +598,11 @@ pub fn gen_ops(rng: &mut Rng, inner: &str, cfg: &GenCfg, pool: &Pool) -> Vec<Op>
     if end < start {
       std::mem::swap(&mut start, &mut end);
     }
-    if cfg.reversed_ops && start != end && rng.chance(1, 16) {
-      std::mem::swap(&mut start, &mut end);
+    if cfg.reversed_ops {
+      ALLOW_REVERSED.store(true, std::sync::atomic::Ordering::Relaxed);
+      if start != end && rng.chance(1, 16) {
+        std::mem::swap(&mut start, &mut end);
+      }
     }
     let content = match rng.below(20) {
       0..=1 => String::new(),
